@@ -26,7 +26,9 @@ MkInput(ptr, vis, marks, emarks, ditem, dlines) ==
                      !.align = IF marks.packed THEN None ELSE 4, !.singleton = 65536]
       V == [TypeDef("V", vis.t, <<Field("w", "pub", <<>>, TCPtr(TNm("u8")), None, FALSE)>>)
               EXCEPT !.doc = dd("vtype"),
-                     !.vft = Vft(2, <<Func("vf", vis.vf, dd("vfunc"), <<ArgM>>, TNone, None, None, "")>>)]
+                     (* `_raw`: a declared function whose name starts with an underscore keeps its declared visibility in the table *)
+                     !.vft = Vft(3, <<Func("vf", vis.vf, dd("vfunc"), <<ArgM>>, TNone, None, None, ""),
+                                      Func("_raw", vis.vf, <<>>, <<ArgM>>, TNone, None, None, "")>>)]
       D == TypeDef("D", "pub", <<Field("t", "pub", <<>>, TNm("T"), None, TRUE),
                                  Field("x", "pub", <<>>, TNm("u32"), None, FALSE)>>)
       DV == TypeDef("DV", "pub", <<Field("v", "pub", <<>>, TNm("V"), None, TRUE),
@@ -94,7 +96,7 @@ P_C17 ==
      /\ FieldNamed(v, "vftable").vis = "priv"
      /\ MethodNamed(t, "h").vis = h.vis
      /\ MethodNamed(v, "vf").vis = vf.vis
-     /\ FieldNamed(vt, "vf").vis = vf.vis /\ FieldNamed(vt, "_vfunc_1").vis = "priv"
+     /\ FieldNamed(vt, "vf").vis = vf.vis /\ FieldNamed(vt, "_vfunc_2").vis = "priv"
      /\ File.evals[1].vis = M.evals[1].vis
      (* derives and packing *)
      /\ t.derives = WantDerives(T) /\ e.derives = WantDerives(E)
@@ -106,7 +108,7 @@ P_C17 ==
      /\ \A i \in DOMAIN t.fields : t.fields[i].name # "f" => t.fields[i].doc = <<>>
      /\ MethodNamed(t, "h").doc = h.doc
      /\ MethodNamed(v, "vf").doc = vf.doc /\ FieldNamed(vt, "vf").doc = vf.doc
-     /\ FieldNamed(vt, "_vfunc_1").doc = <<>> /\ vt.doc = <<>>
+     /\ FieldNamed(vt, "_vfunc_2").doc = <<>> /\ vt.doc = <<>>
      (* inherited copies *)
      /\ (h.vis = "pub" => MethodNamed(d, "h").doc = h.doc)
      /\ (\E j \in DOMAIN dv.methods : dv.methods[j].name = "vf") /\ MethodNamed(dv, "vf").doc = vf.doc
